@@ -7,6 +7,7 @@
   holds for all row lists of any length, every walk order `σ` of the security set and `τ` of the
   day map, and any function `yearOf` from days to years.
 -/
+import AcbModel.Generated.AppReports
 import AcbModel.Lemmas.Costs
 namespace Acb
 open Acb.Costs
@@ -124,6 +125,13 @@ theorem C17_ignored_complete (rows : List Row) (r : Row) (hr : r ∈ rows) (hc :
 theorem C17_figure_determined (rows : List Row) (s : Nat) (d : Int) :
     Figure rows s d (figure rows s d) ∧ ∀ v, Figure rows s d v → v = figure rows s d :=
   ⟨figure_spec rows s d, fun _ hv => Figure_unique hv (figure_spec rows s d)⟩
+
+/-- **C17 (what the source says, re-read by the translator on every run).**  Days are settlement
+    dates, a day's figure is a running `max`, the yearly day is replaced only by a strictly higher
+    total, and the default affiliate is recognised by its exact id. -/
+theorem C17_source_facts :
+    Gen.costsDateField = "settlement_date" ∧ Gen.dayMaxFn = "max" ∧ Gen.yearlyMaxCmp = "<" ∧
+    Gen.defaultAffiliateIds = ["default", "default (R)"] := by decide
 
 end Acb
 
